@@ -63,6 +63,8 @@ pub struct World<S: MdkStorageProvider> {
     pub leave_ev: BTreeMap<usize, u64>,   // member -> its leave proposal event
     pub retention: usize,
     pub reopen: Option<Box<dyn Fn(usize) -> S>>,   // persistent backends: reopen client i's database file
+    pub joined: Vec<bool>,                          // clients that are (or were) members; spare clients join later through a welcome
+    pub welcomes: BTreeMap<u64, Vec<UnsignedEvent>>, // add-commit event -> welcome rumors it produced
 }
 
 pub fn id_order_key(id: &EventId) -> u64 {
@@ -93,9 +95,11 @@ pub fn result_kind(r: &Result<MessageProcessingResult, mdk_core::Error>) -> &'st
 impl<S: MdkStorageProvider> World<S> {
     pub fn new<F: Fn(usize) -> S>(n: usize, admin_mask: u64, retention: usize, mk: F) -> Self { Self::new_twin(n, admin_mask, retention, false, mk) }
     /// `twin`: the last two clients are two devices of ONE Nostr identity (same keys, separate storage, two leaves).
-    pub fn new_twin<F: Fn(usize) -> S>(n: usize, admin_mask: u64, retention: usize, twin: bool, mk: F) -> Self {
+    pub fn new_twin<F: Fn(usize) -> S>(n: usize, admin_mask: u64, retention: usize, twin: bool, mk: F) -> Self { Self::new_full(n, admin_mask, retention, twin, 0, mk) }
+    /// `spare`: further clients (indices n..) that are NOT members at the start and may join later through a welcome.
+    pub fn new_full<F: Fn(usize) -> S>(n: usize, admin_mask: u64, retention: usize, twin: bool, spare: usize, mk: F) -> Self {
         let mut clients = vec![];
-        for i in 0..n {
+        for i in 0..n + spare {
             let cb = Arc::new(Cb::default());
             let cfg = MdkConfig { epoch_snapshot_retention: retention, ..Default::default() };
             let mdk = MDK::builder(mk(i)).with_config(cfg).with_callback(cb.clone()).build();
@@ -113,7 +117,7 @@ impl<S: MdkStorageProvider> World<S> {
             clients[i].mdk.accept_welcome(&w).unwrap();
         }
         let now = nostr::Timestamp::now().as_secs();
-        let mut w = World { clients, gid, events: BTreeMap::new(), sigma: BTreeMap::new(), msg_ids: BTreeMap::new(), admin_mask: admin_mask | 1, base_ts: now - 5000, leave_ev: BTreeMap::new(), retention, reopen: None };
+        let mut w = World { clients, gid, events: BTreeMap::new(), sigma: BTreeMap::new(), msg_ids: BTreeMap::new(), admin_mask: admin_mask | 1, base_ts: now - 5000, leave_ev: BTreeMap::new(), retention, reopen: None, joined: (0..n + spare).map(|i| i < n).collect(), welcomes: BTreeMap::new() };
         let a = w.auth(0);
         w.sigma.insert(a, 0);
         w
@@ -211,7 +215,10 @@ impl<S: MdkStorageProvider> World<S> {
                 let mut swept = swept;
                 if let Some(pk) = vpk { for (i, c) in self.clients.iter().enumerate() { if c.keys.public_key() == pk && !swept.contains(&i) { swept.push(i); } } }
                 let leave_refs: Vec<u64> = swept.iter().filter(|x| vpk.map(|pk| self.clients[**x].keys.public_key() != pk).unwrap_or(true)).filter_map(|x| self.leave_ev.get(x)).cloned().collect();
+                let joiner: Option<usize> = kind.strip_prefix("add").and_then(|v| v.parse().ok());
+                let jkp = joiner.map(|j| kp(&self.clients[j].mdk, &self.clients[j].keys));
                 let r = catch_unwind(AssertUnwindSafe(|| match kind {
+                    k if k.starts_with("add") => self.clients[m].mdk.add_members(&gid, &[jkp.clone().unwrap()]),
                     k if k.starts_with("rv") => self.clients[m].mdk.remove_members(&gid, &[vpk.unwrap()]),
                     "su" => self.clients[m].mdk.self_update(&gid),
                     _ => self.clients[m].mdk.update_group_data(&gid, NostrGroupDataUpdate::new().name(format!("g{}", ev + 1))),
@@ -220,6 +227,7 @@ impl<S: MdkStorageProvider> World<S> {
                 match r {
                     Ok(Ok(u)) => {
                         self.register_pending(m, ev);
+                        if let Some(wr) = &u.welcome_rumors { self.welcomes.insert(ev, wr.clone()); }
                         let key = id_order_key(&u.evolution_event.id);
                         self.events.insert(ev, EvInfo { event: u.evolution_event, kind: "commit".into(), author: m, state: st.parse().unwrap_or(9999), epoch: ep, ts, msg: None, ckind: kind.into(), refs: leave_refs.clone(), auth: is_admin || (kind == "su" && swept.is_empty()), removes: swept.clone() });
                         let removes = if swept.is_empty() { "-".to_string() } else { swept.iter().map(|x| x.to_string()).collect::<Vec<_>>().join(",") };
@@ -308,23 +316,39 @@ impl<S: MdkStorageProvider> World<S> {
                 let r = catch_unwind(AssertUnwindSafe(|| self.clients[m].mdk.clear_pending_commit(&gid)));
                 match r { Ok(Ok(())) => (t.join(" "), self.fingerprint(m, "ok", None, None)), Ok(Err(_)) => (t.join(" "), self.fingerprint(m, "Err", None, None)), Err(_) => (t.join(" "), "PANIC".into()) }
             }
-            "SEND" => {
+            "JOIN" => {
+                // PR JOIN <j> <ev>: spare client j processes and accepts the welcome produced by add-commit ev
+                let (j, ev) = (n(2) as usize, n(3));
+                let Some(info) = self.events.get(&ev).cloned() else { return (format!("{} | refused=1", t.join(" ")), "skip".into()); };
+                let Some(wr) = self.welcomes.get(&ev).and_then(|v| v.first()).cloned() else { return (format!("{} | refused=1", t.join(" ")), "skip".into()); };
+                // group name at the add commit's parent state = the author's current name (scripted: nothing happened in between)
+                let data = self.clients[info.author].mdk.get_group(&self.gid).ok().flatten().map(|g| g.name.trim_start_matches('g').parse::<u64>().unwrap_or(0)).unwrap_or(0);
+                let r = catch_unwind(AssertUnwindSafe(|| { let w = self.clients[j].mdk.process_welcome(&EventId::all_zeros(), &wr)?; self.clients[j].mdk.accept_welcome(&w) }));
+                match r {
+                    Ok(Ok(())) => { self.joined[j] = true; (format!("{} | state={} epoch={} data={data}", t.join(" "), ev + 1, info.epoch + 1), self.fingerprint(j, "ok", None, None)) }
+                    _ => (format!("{} | refused=1", t.join(" ")), "skip".into()),
+                }
+            }
+            "SEND" | "SENDF" => {
                 let (m, ev, ts, msg) = (n(2) as usize, n(3), n(4), n(5));
                 let st = self.sigma_of(m, None); let ep = self.mls_epoch(m);
                 self.set_ts(ts);
-                let mut rumor: UnsignedEvent = EventBuilder::new(Kind::Custom(9), format!("text {msg}")).custom_created_at(nostr::Timestamp::from(self.base_ts + msg)).build(self.clients[m].keys.public_key());
+                // SENDF: the (malicious) sender names client t[6] as the author of the inner rumor
+                let forged = t[1] == "SENDF";
+                let apk = if forged { self.clients[n(6) as usize].keys.public_key() } else { self.clients[m].keys.public_key() };
+                let mut rumor: UnsignedEvent = EventBuilder::new(Kind::Custom(9), format!("text {msg}")).custom_created_at(nostr::Timestamp::from(self.base_ts + msg)).build(apk);
                 rumor.ensure_id();
                 let rid = rumor.id.unwrap();
                 // optional 7th token: number of an existing message whose id the (malicious) sender pre-sets on its rumor
-                let victim = if t.len() > 6 { self.msg_ids.iter().find(|(_, n)| **n == t[6].parse::<u64>().unwrap()).map(|(id, _)| *id) } else { None };
+                let victim = if t.len() > 6 && !forged { self.msg_ids.iter().find(|(_, n)| **n == t[6].parse::<u64>().unwrap()).map(|(id, _)| *id) } else { None };
                 if let Some(vid) = victim { rumor.id = Some(vid); }
                 let gid = self.gid.clone();
                 let r = catch_unwind(AssertUnwindSafe(|| self.clients[m].mdk.create_message(&gid, rumor)));
                 match r {
                     Ok(Ok(e)) => {
                         self.msg_ids.insert(rid, msg);
-                        self.events.insert(ev, EvInfo { event: e, kind: "app".into(), author: m, state: st.parse().unwrap_or(9999), epoch: ep, ts, msg: Some((msg, rid)), ckind: String::new(), refs: vec![], auth: true, removes: vec![] });
-                        (format!("{} | author={m} state={st} epoch={ep}{}", t.join(" "), if victim.is_some() { format!(" sender_key={}", t[6]) } else { String::new() }), self.fingerprint(m, "ok", None, Some(ev)))
+                        self.events.insert(ev, EvInfo { event: e, kind: "app".into(), author: m, state: st.parse().unwrap_or(9999), epoch: ep, ts, msg: Some((msg, rid)), ckind: if forged { "forged".into() } else { String::new() }, refs: vec![], auth: true, removes: vec![] });
+                        (format!("{} | author={m} state={st} epoch={ep}{}{}", t.join(" "), if victim.is_some() { format!(" sender_key={}", t[6]) } else { String::new() }, if forged { " bad=7" } else { "" }), self.fingerprint(m, "ok", None, Some(ev)))
                     }
                     Ok(Err(_)) => (format!("{} | refused=1", t.join(" ")), self.fingerprint(m, "Err", None, None)),
                     Err(_) => (format!("{} | refused=1", t.join(" ")), "PANIC".into()),
@@ -372,6 +396,7 @@ impl<S: MdkStorageProvider> World<S> {
                 let (m, ev) = (n(2) as usize, n(3));
                 let ats = if t.len() > 4 { n(4) } else { 100 };
                 let Some(info) = self.events.get(&ev).cloned() else { return (format!("{} | unknown=1", t.join(" ")), "skip".into()); };
+                if !self.joined[m] { return (t.join(" "), "skip".into()); }
                 self.set_ts(ats);
                 let r = catch_unwind(AssertUnwindSafe(|| self.clients[m].mdk.process_message(&info.event)));
                 match r {
